@@ -16,7 +16,7 @@ import (
 func init() {
 	register(&explore.Prop{
 		ID: "C08", Level: levelMC, Explorer: "E1 input-space enumerator + E2 (iteration orders)",
-		Rule: "segments: TERMSET = every assignment of the 5 alphabet terms to {absent, doc0, doc1, both} for field a (4^5), built and self-merged (terms of exactly one doc become 1-hit: every pattern of 1-hit/general/absent over consecutive terms), plus every MERGE(k=2) output with deletions; per segment and field (known and unknown): every [start,end) with bounds nil or a non-empty key from a 12-key set lying on/between/before/after the terms (start<=end), x automata {none, match-all, each prefix, each exact term, contains-byte}; entries, order, entry counts, Contains and PostingsList compared with the model; " +
+		Rule: "segments: TERMSET = every assignment of the 5 alphabet terms to {absent, doc0, doc1, both} for field a (4^5), built and self-merged (three-input merges over 4 kinds too: enumerator ties; terms of exactly one doc become 1-hit: every pattern of 1-hit/general/absent over consecutive terms), plus every MERGE(k=2) output with deletions; per segment and field (known and unknown): every [start,end) with bounds nil or a non-empty key from a 12-key set lying on/between/before/after the terms (start<=end), x automata {none, match-all, each prefix, each exact term, contains-byte}; entries, order, entry counts, Contains and PostingsList compared with the model; " +
 			"distinct = (segment, field, range, automaton); non-trivial = dictionary has >=2 terms and the restriction keeps >=1 and drops >=1; counters.general_after_1hit = iterations meeting a general term right after a 1-hit term",
 		Assumptions: commonAssumptions, Budget: qBudget, Run: runC08,
 	})
@@ -437,6 +437,9 @@ func runC08(c *explore.Ctx) {
 		K = 8
 	}
 	mergeSweepDict(c, 2, K, 2, mergeCfgsQuick[:1], check)
+	// three inputs: the term enumerator's tie handling (two inputs on the same term while a third
+	// is on a smaller one) cannot show with two
+	mergeSweepDict(c, 3, 4, 1, mergeCfgsQuick[:1], check)
 }
 
 // mergeSweepDict is mergeSweep whose replay addresses sub-cases "<scope>/dict" #idx*4096+k.
